@@ -272,6 +272,9 @@ func cmdCheck(args []string) int {
 	if *tier == "thorough" {
 		timeout = 60000
 	}
+	for _, vc := range vcs {
+		vc.slicer() // built once, before the parallel phase
+	}
 	solveStart := time.Now()
 	dischargeAll(items, scratch, timeout, 16)
 	solveWall := time.Since(solveStart).Seconds()
